@@ -195,35 +195,36 @@ def run(ctx, ck) -> None:
         ck.expect('V3', any(p.exit == 'raise' for p in function_paths(fs)), fs, 'other arities raise', 'from_stokes no longer rejects other arities', instance='from_stokes arity', nontrivial=False)
 
     # ------------------------------------------------------------------ V4 from_iquv
+    # decided by partial evaluation: from_iquv (wherever the class finds it along its MRO) is interpreted with the class and
+    # its constants known and four symbolic components; the instance it builds must take exactly the components named by
+    # the class, in field order, promoted (if at all) among themselves only
+    from ..axinterp import Built, ClassRef, Env, Func, Interp, Opaque, Promoted, Raised, Undecided
+
     for k in kinds:
-        fn = k.own.get('from_iquv')
-        if not isinstance(fn, ast.FunctionDef):
+        r = table.resolve(k, 'from_iquv')
+        if r is None or not isinstance(r.node, ast.FunctionDef):
             ck.bad('V4', k.node, f'{k.name}.from_iquv vanished')
             continue
+        fn = r.node
         fields = [f.name for f in table.fields(k)]
-        for p in function_paths(fn):
-            if p.exit != 'return':
-                continue
-            raw = term(p.node.value)
-            e = path_env(p)
-            t = term(p.node.value, e)
-            cls_param = ('var', fn.args.args[0].arg)
-            ok = raw[0] == 'call' and raw[1] == cls_param and [a[1] if a[0] == 'var' else None for a in raw[2]] == fields
-            # or: the promoted tuple of exactly these components, unpacked into the constructor
-            if not ok and t[0] == 'call' and t[1] == cls_param and len(t[2]) == 1 and t[2][0][0] == 'star':
-                inner = t[2][0][1]
-                if inner[0] == 'call' and inner[1] == ('var', 'as_promoted_dtype') and len(inner[2]) == 1 and inner[2][0][0] == 'tuple':
-                    ok = [a[1] if a[0] == 'var' else None for a in inner[2][0][1:]] == fields
-            # the promotion tuple packs and unpacks in the same order
-            promo_ok = True
-            for st in p.stmts():
-                if isinstance(st, ast.Assign) and isinstance(st.value, ast.Call) and isinstance(st.targets[0], ast.Tuple):
-                    tg = [x.id for x in st.targets[0].elts if isinstance(x, ast.Name)]
-                    arg = st.value.args[0] if st.value.args else None
-                    src = [x.id for x in arg.elts if isinstance(x, ast.Name)] if isinstance(arg, ast.Tuple) else None
-                    promo_ok = promo_ok and tg == src == fields
-            ck.expect('V4', ok and promo_ok, fn, f'{k.name}.from_iquv passes exactly ({", ".join(fields)}) in field order',
-                      f'{k.name}.from_iquv builds {show(raw)} (promotion order consistent: {promo_ok}): components are dropped, duplicated or permuted', instance=k.name)
+        it = Interp(world, table, budget=50_000)
+        it.watch_constructors = {k.qual}
+        comps = {n: Opaque(n) for n in ('i', 'q', 'u', 'v')}
+        try:
+            res = it.call_function(Func(fn, Env(module_of(fn)), ClassRef(k), r.found_on), [comps['i'], comps['q'], comps['u'], comps['v']], {})
+        except (Undecided, Raised) as exc:
+            ck.incomplete('V4', fn, f'{k.name}.from_iquv could not be followed: {exc}', instance=k.name)
+            continue
+        if not isinstance(res, Built) or res.kwargs:
+            ck.incomplete('V4', fn, f'{k.name}.from_iquv does not end in a construction of {k.name} the interpreter can follow ({res!r:.80})', instance=k.name)
+            continue
+        taken = [a.value.name if isinstance(a, Promoted) and isinstance(a.value, Opaque) else a.name if isinstance(a, Opaque) else None for a in res.args]
+        groups = [a.group for a in res.args if isinstance(a, Promoted)]
+        ok = taken == fields
+        promo_ok = all(g == frozenset(fields) for g in groups) and (not groups or len(groups) == len(fields))
+        ck.expect('V4', ok and promo_ok, fn, f'{k.name}.from_iquv passes exactly ({", ".join(fields)}) in field order' + (', promoted among themselves' if groups else ''),
+                  f'{k.name}.from_iquv builds {k.name}({", ".join(str(t) for t in taken)})' + (f' with components promoted over {sorted(groups[0])}' if groups and not promo_ok else '')
+                  + ': components are dropped, duplicated, permuted, or take the data type of components the container ignores', instance=k.name)
 
     # ------------------------------------------------------------------ V5 factories: argument selection
     tree = world.module(TREE)
